@@ -22,7 +22,7 @@
 #include <string.h>
 /* attributes the frame conversion reads and writes: the numbered attribute h26x.n[i] (offset of NAL i+1) is an array
  * indexed by i — the name formatting (vsnprintf) is dropped — and b.header is one cell; every other attribute is absent */
-#define NALMAX 3
+#define NALMAX 5
 static uint64_t g_naloff[NALMAX]; static bool g_naloff_set[NALMAX]; static uint64_t g_hdr; static bool g_hdr_set; static int g_attr_bad;
 static int stub_num_get(struct uref *u, uint64_t *p, uint64_t idx) { if (idx >= NALMAX || !g_naloff_set[idx]) return UBASE_ERR_INVALID; *p = g_naloff[idx]; return UBASE_ERR_NONE; }
 static int stub_num_set(struct uref *u, uint64_t v, uint64_t idx) { if (idx >= NALMAX) { g_attr_bad++; return UBASE_ERR_INVALID; } g_naloff[idx] = v; g_naloff_set[idx] = true; return UBASE_ERR_NONE; }
@@ -34,7 +34,7 @@ static int stub_named_set(struct uref *u, uint64_t v, const char *name) { if (st
 #define uref_attr_set_unsigned(u, v, t, name) stub_named_set(u, v, name)
 #include <upipe/uref_block.h>
 #include <upipe/uref_block_flow.h>
-#define FMAX 20
+#define FMAX 24
 static struct { uint8_t b[FMAX]; size_t len; } g_frame;          /* the frame's byte string */
 static struct { uint8_t b[4]; size_t len; } g_ins;               /* a block holding a prefix to insert */
 static struct ubuf g_ins_ubuf, g_annexb_ubuf;
@@ -187,21 +187,29 @@ static size_t put_prefix(uint8_t *b, size_t at, int enc, size_t n, bool sc3)
 void h_convert(void)
 {
     BUILD_FRAME();
-    VIN(int, av); VIN(int, bv); VIN_ARR(uint8_t, nsz, 3); VIN_ARR(uint8_t, sc3, 3); VIN_ARR(uint8_t, pay, 3 * PMAX);
+    VIN(int, av); VIN(int, bv); VIN_ARR(uint8_t, nsz, 4); VIN_ARR(uint8_t, sc3, 4); VIN_ARR(uint8_t, pay, 4 * PMAX);
 #ifdef AENC
     VASSUME(av == AENC);           /* case split on the input encapsulation (one group per value) */
 #endif
     VASSUME(av >= UREF_H26X_ENCAPS_NALU && av <= UREF_H26X_ENCAPS_LENGTH4 && av != UREF_H26X_ENCAPS_LENGTH_UNKNOWN);
+#ifdef BENC
+    VASSUME(bv == BENC);
+#endif
     VASSUME(bv >= UREF_H26X_ENCAPS_NALU && bv <= UREF_H26X_ENCAPS_LENGTH4 && bv != UREF_H26X_ENCAPS_LENGTH_UNKNOWN);
     VASSUME(!g_fail_alloc && !g_fail_insert);
+    VIN(uint8_t, gq); VIN(uint8_t, gq2); VASSUME(gq >= 1 && gq < NNAL && gq2 >= 1 && gq2 < NNAL);          /* ghost unit indices (drawn before the call so that a replay knows them) */
     for (int q = 0; q < NNAL; q++) VASSUME(nsz[q] >= 1 && nsz[q] <= PMAX);
 #ifdef AENC
+#ifdef BENC
+    enum uref_h26x_encaps A = (enum uref_h26x_encaps)AENC, B = (enum uref_h26x_encaps)BENC;
+#else
     enum uref_h26x_encaps A = (enum uref_h26x_encaps)AENC, B = (enum uref_h26x_encaps)bv;
+#endif
 #else
     enum uref_h26x_encaps A = (enum uref_h26x_encaps)av, B = (enum uref_h26x_encaps)bv;
 #endif
     /* frame = NNAL units, each prefix_A + payload (an Annex B payload does not start with 00 00 0x: a start code is recognised by its octets) */
-    size_t at = 0, off[3] = { 0, 0, 0 }; bool all_sc4 = true;
+    size_t at = 0, off[4] = { 0, 0, 0, 0 }; bool all_sc4 = true;
     for (int q = 0; q < NNAL; q++) {
         off[q] = at;
         at += put_prefix(g_frame.b, at, A, nsz[q], (sc3[q] & 1) != 0);
@@ -216,7 +224,7 @@ void h_convert(void)
     int ret = upipe_h26xf_convert_frame(&g_uref, A, B, NULL, &g_annexb_ubuf);
     VPOST(ret == UBASE_ERR_NONE && g_ops_bad == 0 && g_attr_bad == 0);
     /* expected frame */
-    uint8_t exp[FMAX]; for (int k = 0; k < FMAX; k++) exp[k] = 0; size_t e = 0, eoff[3] = { 0, 0, 0 };
+    uint8_t exp[FMAX]; for (int k = 0; k < FMAX; k++) exp[k] = 0; size_t e = 0, eoff[4] = { 0, 0, 0, 0 };
     if (A == B) { for (int k = 0; k < FMAX; k++) exp[k] = orig[k]; e = orig_len; }
     else {
         for (int q = 0; q < NNAL; q++) {
@@ -224,7 +232,6 @@ void h_convert(void)
             e += put_prefix(exp, e, B, nsz[q], false);
             for (int k = 0; k < PMAX; k++) { if (k >= nsz[q]) break; exp[e++] = pay[q * PMAX + k]; }
         }
-        VIN(uint8_t, gq); VASSUME(gq >= 1 && gq < NNAL);
         VPOST(g_naloff_set[gq - 1] && g_naloff[gq - 1] == eoff[gq] && !g_naloff_set[NNAL - 1]);          /* the units are still delimited */
     }
     VPOST(g_frame.len == e);
@@ -233,7 +240,6 @@ void h_convert(void)
     /* and back: original octets when A used 4-octet start codes or length prefixes */
     if (A != B && ((A == UREF_H26X_ENCAPS_ANNEXB && all_sc4) || A == UREF_H26X_ENCAPS_LENGTH4 || A == UREF_H26X_ENCAPS_LENGTH1 || A == UREF_H26X_ENCAPS_LENGTH2)) {
         int r2 = upipe_h26xf_convert_frame(&g_uref, B, A, NULL, &g_annexb_ubuf);
-        VIN(uint8_t, gq2); VASSUME(gq2 >= 1 && gq2 < NNAL);
         VPOST(r2 == UBASE_ERR_NONE && g_frame.len == orig_len && g_naloff[gq2 - 1] == off[gq2]);
         VPOST(gi >= orig_len || gi >= FMAX || g_frame.b[gi] == orig[gi]);
     }
